@@ -200,6 +200,19 @@ CHECKS.update({
             "finding (uri-encode above U+00FF) is listed in known_findings.json.", "DESIGN.md §4 C19"),
 })
 
+CHECKS.update({
+    "C20": ("exploration", "bounded-exhaustive enumeration of (SRE, subject) pairs against a Brzozowski-derivative oracle cross-checked by two further independent deciders",
+            "Every SRE of the stated strata (all terms of a shape over the atom alphabet {a, b, any, nonl, bol, eol, bos, eos, character "
+            "classes, ranges, complement/difference/intersection} and the operators seq, or, *, +, ?, **, =, >=, non-greedy variants, "
+            "submatches ($, ->), w/nocase, w/ascii, look-around where supported) x every subject string up to length 4 (5 thorough) over "
+            "{a, b, newline} plus a fixed list with upper case and multi-byte characters is run through regexp-matches and regexp-search "
+            "on the real interpreter (each SRE compiled once, thousands of pairs per process). Asserted: regexp-matches non-#f iff the whole "
+            "subject is in L(sre); regexp-search non-#f iff some substring in its place is in L(sre); reported span 0 and every numbered / "
+            "named submatch span delimit text in the language of the corresponding sub-SRE and nest.",
+            "Which match is reported (leftmost/longest, which iteration of a repeated submatch) is not asserted; every expected value is "
+            "cross-checked between the derivative oracle, a set-of-positions evaluator and Python re before it is used.", "DESIGN.md §4 C20"),
+})
+
 NOT_YET = {}
 
 
